@@ -210,8 +210,11 @@ class CFG:
                     self._edge(src, after.id, lab)
             return [(after.id, "next")]
         if isinstance(s, (ast.For, ast.AsyncFor)):
-            n = self._new("for", s)
-            self._connect(ins, n.id)
+            it = self._new("for_iter", s)  # evaluates the iterable once
+            self._connect(ins, it.id)
+            self._route(it.id, "exc", "exc")
+            n = self._new("for", s)  # loop head: one next() per visit
+            self._edge(it.id, n.id, "next")
             self._route(n.id, "exc", "exc")
             after = self._new("join", s)
             fr = _Frame("loop", s, break_to=after.id, continue_to=n.id)
